@@ -89,21 +89,29 @@ func (c *Crew) NewCaptainSpec() *core.Spec {
 			"do": {
 				Action: &core.FuncAction{
 					F: func(ctx context.Context, bs match.Bindings, props core.StepProps) (*core.Execution, error) {
+						// Don't keep "?op" bound after a problem:
+						// the captain would then only match a
+						// message equal to the one that failed and
+						// ignore every other request from then on.
+						problem := func(msg string) match.Bindings {
+							return match.NewBindings().Extend("error", msg)
+						}
+
 						x, have := bs["?op"]
 						if !have {
-							return core.NewExecution(bs.Extend("error", "no op")), nil
+							return core.NewExecution(problem("no op")), nil
 						}
 						op, err := AsCrewOp(x)
 						if err != nil {
-							return core.NewExecution(bs.Extend("error", "bad crew op: "+err.Error())), nil
+							return core.NewExecution(problem("bad crew op: " + err.Error())), nil
 						}
 						if op == nil {
-							return core.NewExecution(bs), nil
+							return core.NewExecution(match.NewBindings()), nil
 						}
 
 						err = c.DoOp(ctx, op)
 						if err != nil {
-							return core.NewExecution(bs.Extend("error", "crew op error: "+err.Error())), nil
+							return core.NewExecution(problem("crew op error: " + err.Error())), nil
 						}
 
 						return core.NewExecution(match.NewBindings()), nil
